@@ -124,7 +124,15 @@ def run_case(ns, mon, case):
     params = []
     for i in range(npar + 2):           # last two are bystanders (never given to the optimizer)
         shp = shapes[int(rng.integers(len(shapes)))]
-        p = nn.Parameter(T(rng.standard_normal(shp).astype(dt), requires_grad=True))
+        arr_ = rng.standard_normal(shp).astype(dt)
+        if len(shp) >= 2 and rng.random() < 0.3:
+            # the parameter's storage is a view (a transposed / strided slice of a bigger buffer, e.g. tied or packed weights): updates go into that view
+            if rng.random() < 0.5:
+                arr_ = np.ascontiguousarray(arr_.T).T
+            else:
+                big_ = np.zeros(shp[:-1] + (2 * shp[-1],), dtype=dt); big_[..., ::2] = arr_; arr_ = big_[..., ::2]
+            counters["view_parameters"] = counters.get("view_parameters", 0) + 1
+        p = nn.Parameter(T(arr_, requires_grad=True))
         setattr(m, f"p{i}", p)
         params.append(p)
     opt_params = params[:npar]
